@@ -555,8 +555,6 @@ def evaluate__value_comparison_operators(self: XPathToken, context: ta.ContextTy
         pass
     elif all(isinstance(x, (str, UntypedAtomic, AnyURI)) for x in operands):
         pass
-    elif all(isinstance(x, (str, UntypedAtomic, QName)) for x in operands):
-        pass
     elif all(isinstance(x, (float, Decimal, int)) for x in operands):
         if isinstance(operands[0], float):
             operands[1] = get_double(cast(ta.NumericType, operands[1]), self.parser.xsd_version)
